@@ -10,7 +10,13 @@ THEOREMS = ['Tbox.C10.C10_stream', 'Tbox.C10.C10_per_thread_order', 'Tbox.C10.C1
             'Tbox.C10.C10_stop_unlocked_counterexample', 'Tbox.C10.C10_cleanup_flushes_needs_quiescence', 'Tbox.C10.C10_blocks_shaped', 'Tbox.C10.C10_observable_accepted',
             'Tbox.C10.C10_reconstruction_certified', 'Tbox.C10.C10_complete', 'Tbox.C10.blockRule_pack', 'Tbox.C10.realize', 'Tbox.C10.C10_sink_may_append',
             'Tbox.C10.C10_nested_backpressure_self_deadlock', 'Tbox.C10.C10_reinit_fresh', 'Tbox.C10.stuck_after_exit',
-            'Tbox.C10.C10_late_append_can_block_forever', 'Tbox.C10.Spec.parse_sound', 'Tbox.C10.exec_inv']
+            'Tbox.C10.C10_late_append_can_block_forever', 'Tbox.C10.Spec.parse_sound', 'Tbox.C10.exec_inv',
+            # round 5: fault schedules (allocation failure), the API around a lifecycle, contract violations
+            'Tbox.C10.C10_alloc_failure_safe', 'Tbox.C10.C10_alloc_failure_drops_exactly_the_rest', 'Tbox.C10.C10_alloc_failure_no_deadlock',
+            'Tbox.C10.C10_alloc_failure_count_leak_counterexample', 'Tbox.C10.xexec_xinv', 'Tbox.C10.dead_forever',
+            'Tbox.C10.C10_api_init_validates', 'Tbox.C10.C10_api_init_twice_refused', 'Tbox.C10.C10_api_init_twice_counterexample',
+            'Tbox.C10.C10_api_fresh_lifecycle', 'Tbox.C10.C10_api_cleanup_idempotent', 'Tbox.C10.C10_api_init_threw_strands_buffers_counterexample',
+            'Tbox.C10.C10_quiescent_after_cleanup', 'Tbox.C10.C10_sink_cannot_join_itself', 'Tbox.C10.C10_lockless_without_lock_counterexample']
 SOURCES = ['modules/util/async_pipe.cpp']
 # tsan: the property includes data-race freedom; ThreadSanitizer (halt_on_error) turns a race in a case into CRASH tsan:data race.
 # (asan also builds and runs this harness — set C10_FLAVOUR=asan — but then only the stream/termination part is observed.)
@@ -28,17 +34,31 @@ TRUSTED = ['model lean/TboxModel/C10/Model.lean hand-written from modules/util/a
            'std::mutex gives atomic critical sections; try_lock succeeds iff the mutex is free (pthread semantics, no spurious failure); '
            'condition_variable wait = any number of predicate evaluations; one back-end std::thread',
            'ThreadSanitizer (gcc 12 libtsan) under PRNG-seeded delay injection at the interposed pthread_mutex_lock/unlock/cond_*wait '
-           'is the instrument for data races: it observes the schedules that were run, it proves nothing']
+           'is the instrument for data races: it observes the schedules that were run, it proves nothing',
+           'fault schedules: the harness replaces operator new[] (buffer storage) and interposes pthread_create; the op file chooses which '
+           'allocation / thread creation fails; the allocator\'s and kernel\'s answers are oracle inputs of the model (XStep.allocFail, InitFault)',
+           '`compact` lifecycles (buffer / append sizes around 2^24, 2^31): the harness itself compares every delivered block with the expected '
+           'records on the fly and reports match/total/block lengths; the driver checks those numbers (blockRuleN is driver glue, unproved)',
+           'acquisition order: a global sequence number stamped at the first pthread_mutex_lock obtained inside each append (M-class)']
 ASSUMPTIONS = ['configuration accepted by initialize(): buff_size >= 1, 1 <= buff_min_num <= buff_max_num, interval >= 1',
                'no append is in flight when cleanup() begins and none starts afterwards (C10_cleanup_flushes / _terminates hypothesis `late = false`); '
                'an append concurrent with cleanup may lose its data or block for ever — outside the statement, noted in the report',
                'liveness needs a fair scheduler for the back-end thread and a timed wait that eventually times out',
                're-entrant use: the sink callback may append to the same pipe, but at most what fits without waiting for a buffer — a nested '
                'append that hits back-pressure waits for its own thread (C10_nested_backpressure_self_deadlock: by design, not a defect); '
-               'nested appends made after cleanup began are late appends']
+               'nested appends made after cleanup began are late appends',
+               'setCallback is called before the first append of a lifecycle and not concurrently with appends (cb_ is an unsynchronised member); '
+               'the sink callback does not throw and does not call cleanup() on its own pipe (both end in std::terminate: documented experiments '
+               'exp cbthrow / exp cbcleanup, C10_sink_cannot_join_itself); appendLockless is only called between appendLock/appendUnlock '
+               '(C10_lockless_without_lock_counterexample, exp lockless: TSan report)',
+               'an allocation failure is reported to the appending caller as std::bad_alloc; that append has then written a prefix (whole buffers) '
+               'and its rest is dropped (C10_alloc_failure_drops_exactly_the_rest); an AsyncPipe whose initialize() threw keeps its buffers until '
+               'cleanup/destruction (C10_api_init_threw_strands_buffers_counterexample)',
+               'flush interval < 2^63/10^6 ms (beyond, libstdc++ chrono overflows converting to nanoseconds); exercised up to 2^32+1 ms']
 RULE = ('cases = pipe lifecycles: config (buffer size 1..4096, (min,max) in {(1,1),(1,2),(2,2),(2,10),(3,5),(1,64)}, interval 1..50 ms) x 1..8 '
         'real producer threads appending tagged length-prefixed records (smaller than / equal to / many times a buffer, zero-size, '
         'lock+lockless groups) x PRNG-seeded delay schedule at the interposed lock/wait points x slow sink; cleanup at quiescent points; several initialize..cleanup lifecycles on one object; re-entrant sinks (`echo`: the callback appends acks to the same pipe on every n-th / every timed-flush block); `fillhold` probes (live buffer count with the sink held); '
+        'round 5: initialize() on a running pipe, destructor instead of cleanup, no callback installed, allocation-failure schedules while the pool grows (`allocfail k,..`), failing thread creation / allocation in initialize (`initfail`), width families (buffer and append sizes on both sides of 2^16 byte-exact, of 2^24 — 2^31 in thorough — in compact lifecycles, intervals around 2^31/2^32 ms), acquisition order recorded at the producer mutex, documented contract-violation experiments; '
         'non-trivial = at least 2 producers really interleaved, or a timed flush of a partial buffer, or real back-pressure '
         '(a producer waited for a buffer), or an append spanning several buffers; distinct = distinct op text')
 
@@ -125,8 +145,60 @@ def gen_case(rng, budget_bytes=20000, budget_blocks=2500):
             ops.append('sleep %d' % rng.choice([0, iv, iv + 1, 2 * iv + 1, 3]))
     ops.append('cleanup')
     if rng.random() < 0.15:
+        ops[-1] = 'destroy'             # the destructor instead of cleanup()
+    if rng.random() < 0.15:
         ops.append('cleanup')           # second cleanup: no-op
     return ops
+
+
+def gen_allocfail(rng):
+    """fault schedule: some of the buffer allocations made while the pool grows from min to max throw std::bad_alloc; the append
+    reports it to its caller, the pipe must stay usable (later appends complete, cleanup returns) and nothing else may be lost"""
+    size = rng.choice([1, 2, 3, 4, 8, 16])
+    mn, mx = rng.choice([(1, 2), (1, 2), (1, 3), (2, 3), (2, 4), (1, 8)])
+    ops = ['init %d %d %d %d' % (size, mn, mx, rng.choice([1, 2, 5])),
+           'perturb %d %d %d' % (rng.randrange(1, 10 ** 9), rng.choice([0, 50, 200]), rng.choice([0, 100, 500]))]
+    ks = sorted(rng.sample(range(1, 7), rng.choice([1, 2, 2])))
+    ops.append('allocfail ' + ','.join(map(str, ks)))
+    for ph in range(rng.choice([2, 3, 4])):
+        for tid in rng.sample(range(8), rng.choice([1, 1, 2])):
+            toks = [str(rng.choice([0, 1, size, 2 * size, 3 * size + 1, 20, 40])) for _ in range(rng.choice([1, 2, 3]))]
+            ops.append('prod %d 0 %s' % (tid, ','.join(toks)))
+        ops.append('run')
+        ops.append('sleep %d' % rng.choice([0, 3, 20]))
+    ops.append(rng.choice(['cleanup', 'cleanup', 'destroy']))
+    return ops
+
+
+def gen_width(rng, tier):
+    """width boundaries (lesson a): buffer sizes and append sizes on both sides of 2^16 with the full byte-level acceptor, of 2^24 in `compact` lifecycles (2^31 and 2^32:
+    gen_huge, ASan pass of the thorough tier) (one append at a time; the harness compares the stream on the fly), and
+    flush intervals on both sides of 2^31 / 2^32 ms"""
+    for size in (65535, 65536, 65537):
+        yield ['init %d 1 2 5' % size, 'perturb %d 0 0' % rng.randrange(1, 10 ** 9),
+               'prod 0 0 %d,%d,%d,z,%d' % (size - 6, size - 5, size - 4, 2 * size), 'prod 1 0 %d' % (size - 5), 'run', 'cleanup']
+    yield ['init 256 1 2 2', 'prod 0 0 65530,65531,65532', 'prod 5 0 131067,g70000', 'run', 'cleanup']
+    for size in ((16777216,) if tier == 'quick' else (16777215, 16777216, 16777217)):
+        yield ['init %d 1 2 5' % size, 'compact', 'big 0 %d' % (size - 6), 'big 0 %d' % (size - 5), 'big 1 %d' % (size - 4), 'big 0 3', 'cleanup']
+    yield ['init 4096 1 3 1', 'compact', 'big 3 16777211', 'big 3 0', 'big 2 16777212', 'cleanup']
+    yield ['init 65536 2 2 3', 'compact', 'big 7 65531', 'big 7 65532', 'big 1 16777216', 'destroy']
+    for iv in (2147483647, 2147483648, 4294967295, 4294967296, 4294967297):
+        yield ['init 64 1 2 %d' % iv, 'prod 0 0 10,59,200', 'run', 'sleep 3', 'prod 1 0 7', 'run', 'cleanup']
+
+
+def gen_huge():
+    """appends of 2^31-1, 2^31 and 2^32 bytes through 1 MiB buffers (compact lifecycle).  Only in the ASan+UBSan pass of the thorough tier
+    (under TSan a 2 GiB source buffer costs > 30 GiB of shadow memory: measured) and only when the machine has the memory free."""
+    if os.environ.get('C10_HUGE', '1') == '0':
+        return
+    try:
+        avail = int([l for l in open('/proc/meminfo') if l.startswith('MemAvailable')][0].split()[1]) // 1024
+    except Exception:
+        avail = 0
+    if avail > 16000:       # MiB; measured peak of the case below: about 9 GiB
+        yield ['init 1048576 1 2 5', 'compact', 'big 0 2147483642', 'big 0 2147483643', 'big 1 4294967291', 'big 1 5', 'cleanup']
+    elif avail > 8000:
+        yield ['init 1048576 1 2 5', 'compact', 'big 0 2147483642', 'big 0 2147483643', 'big 1 5', 'cleanup']
 
 
 def gen(rng, tier):
@@ -135,7 +207,32 @@ def gen(rng, tier):
     yield ['prod 0 0 1,2', 'run', 'init 0 1 1 1', 'init 8 0 1 1', 'init 8 2 1 1', 'init 8 1 1 0', 'init 8 1', 'init x 1 1 1',
            'cleanup', 'init 8 1 2 5', 'init 8 1 2 5', 'prod 9 0 1', 'prod 0 0 1,,2', 'prod 0 0 1,', 'prod 0 0 g', 'prod 0 0 99999',
            'prod 0 0 3,z,g4', 'prod 0 0 1', 'perturb 1 2', 'perturb 5 99999 0', 'sleep 9999', 'frob', 'fillhold 0 5', 'fillhold 8 1', 'fillhold 1',
-           'late 4 2 3', 'run', 'cleanup', 'cleanup', 'fillhold 1 1', 'late 0 1 1', 'late 4 2', 'late 5000 1 1']
+           'late 4 2 3', 'run', 'cleanup', 'cleanup', 'fillhold 1 1', 'late 0 1 1', 'late 4 2', 'late 5000 1 1',
+           'reinit 8 1 2 5', 'unsetcb', 'setcb', 'compact', 'big 0 5', 'allocfail 1', 'exp lockless 0 1 1', 'exp frob 4 1 1', 'exp cbthrow 4 1',
+           'initfail thread 8 1 2', 'initfail alloc 3 8 2 3 5', 'initfail alloc 0 8 2 3 5', 'initfail disk 8 1 2 5', 'initfail thread 0 1 1 1',
+           'init 8 1 2 5', 'allocfail 0', 'allocfail 1,,2', 'allocfail x', 'big 0 5', 'compact', 'big 8 1', 'prod 0 0 1', 'run', 'compact', 'unsetcb',
+           'initfail thread 8 1 2 5', 'cleanup', 'init 8 1 2 99999999999', 'init 99999999999 1 2 1', 'init 8 1 2 4294967298', 'destroy', 'destroy']
+    # directed: initialize() on a RUNNING pipe must be refused and must leave the running lifecycle alone (as found: std::terminate)
+    yield ['init 8 1 2 5', 'prod 0 0 3', 'run', 'reinit 8 1 2 5', 'reinit 0 0 0 0', 'reinit 64 2 2 1', 'prod 1 0 20', 'run', 'cleanup',
+           'init 16 2 3 1', 'reinit 16 2 3 1', 'prod 1 0 2', 'run', 'destroy']
+    # directed: the destructor of a running pipe is a cleanup; destroying twice / a pipe never initialised is a no-op
+    yield ['destroy', 'init 16 1 2 5', 'prod 0 0 3,40', 'prod 5 0 g11', 'run', 'destroy', 'destroy', 'init 4 1 1 1', 'prod 2 0 9', 'run', 'destroy', 'cleanup']
+    # directed: no callback installed (blocks are recycled, nothing crashes, cleanup returns); setCallback again before the first append
+    yield ['init 8 1 2 2', 'unsetcb', 'prod 0 0 30,0', 'run', 'sleep 5', 'cleanup', 'init 8 1 2 2', 'unsetcb', 'setcb', 'prod 0 0 30', 'run', 'cleanup']
+    # directed fault schedules: growing the pool fails twice (as found: buff_num_ counted the buffer that was never allocated; the
+    # back end then deleted the last real one and the next producer waited for ever)
+    yield ['init 4 1 2 5', 'allocfail 1,2', 'prod 0 0 20', 'run', 'sleep 30', 'prod 0 0 20', 'run', 'sleep 30', 'prod 0 0 3', 'run', 'cleanup']
+    yield ['init 2 1 2 1', 'perturb 5 0 2000', 'allocfail 1', 'prod 0 0 3', 'run', 'prod 1 0 3', 'run', 'sleep 20', 'prod 2 0 0', 'run', 'cleanup']
+    # directed fault schedules for initialize(): thread creation fails / a buffer allocation fails: the caller gets the exception, the
+    # object can be initialised again or destroyed
+    yield ['initfail thread 8 1 2 5', 'init 8 1 2 5', 'prod 0 0 3,30', 'run', 'cleanup', 'initfail alloc 2 8 2 3 5', 'destroy',
+           'initfail alloc 1 8 0 3 5', 'initfail thread 0 1 1 1', 'initfail alloc 1 16 2 3 5', 'init 8 2 3 5', 'prod 3 0 50', 'run', 'cleanup']
+    for _ in range(10 if tier == 'quick' else 120):
+        yield gen_allocfail(rng)
+    for c in gen_width(rng, tier):
+        yield c
+    # documented only (M-class): contract violations — lockless appends without the lock, a throwing sink, a sink that cleans up its own pipe
+    yield ['exp lockless 8 2 20', 'exp cbthrow 8 2 1', 'exp cbcleanup 8 2 1']
     # directed: one byte buffers, single buffer (min=max=1): every byte is a block, permanent back-pressure
     yield ['init 1 1 1 1', 'perturb 7 100 200', 'prod 0 0 0,3,z,1', 'prod 1 0 2,2', 'run', 'cleanup']
     # directed: append exactly a buffer, then smaller, then many buffers; timed flush in between
@@ -176,11 +273,11 @@ def nontrivial(ops, model_lines):
 def fingerprint(ops, d):
     import hashlib, re
     what = (d[1] if d else '') or ''
-    mc = re.search(r'CRASH [^\]]*|P (run|cleanup) timeout', what)
+    mc = re.search(r'CRASH [^\]]*|P (run|cleanup|destroy|big|fillhold) timeout', what)
     if mc:
         key = mc.group(0)               # e.g. 'CRASH tsan:data race' / 'P cleanup timeout' (watchdog)
     else:
-        m = re.search(r'(LOST|DUPLICATE|NOT CONTIGUOUS|OVERLAPPED|EMPTY block|not the start|not a run of the model|reconstruction|M-class: peak|M-class: \\d+ buffers alive|M-class: producer blocked|did not return|initialize)', what)
+        m = re.search(r'(LOST|DUPLICATE|NOT CONTIGUOUS|OVERLAPPED|EMPTY block|not the start|not a run of the model|reconstruction|M-class: peak|M-class: \\d+ buffers alive|M-class: producer blocked|acquisition order|did not return|running pipe must be refused|reported bad_alloc|compact comparison|initialize)', what)
         key = m.group(1) if m else what[:40]
     return 'C10-' + hashlib.sha1(key.encode()).hexdigest()[:10]
 
@@ -219,6 +316,8 @@ def check(tier, seed, replay):
         proxy = types.SimpleNamespace(**vars(me))
         proxy.FLAVOUR = 'asan'
         proxy.extra_coverage = lambda: {}
+        import itertools
+        proxy.gen = lambda rng, t: itertools.chain(gen_huge(), gen(rng, t))
         rc2 = vlib.standard_check(proxy, 'quick', seed + 1000, None)
         try:
             import json
